@@ -519,6 +519,8 @@ def handle (args : List String) : Option String :=
   | ["flatmap", s] => do pure (showS (flatMapStr (fun c => c ++ [124] ++ c) (← decStr s)))
   | ["pad", s, w, l] => do
     pure (showS (pad (← decStr s) (← w.toNat?) (l == "1")))
+  | ["padobj", s, w, l] => do   -- object form: the same padding rule (its own copy in format.rs)
+    pure (showS (pad (← decStr s) (← w.toNat?) (l == "1")))
   | _ => none
 
 end Rsj.Str
